@@ -390,6 +390,9 @@ type MapPlan struct {
 	// Map must then still return (with whatever error it likes) without
 	// panic, race or deadlock of the caller.
 	FailAt int `json:"fail_at,omitempty"`
+	// FailWithValue: the failing chunk returns a (partial) value together
+	// with its error, as an Operator is free to do: it has failed all the same.
+	FailWithValue bool `json:"fail_with_value,omitempty"`
 	// NilAt > 0: the chunk containing position NilAt-1 returns (nil, nil):
 	// still one result for that chunk.
 	NilAt int `json:"nil_at,omitempty"`
@@ -405,10 +408,14 @@ type recMapper struct {
 	slices *[]span
 	failAt int
 	nilAt  int
+	failV  bool
 }
 
 func (m *recMapper) Operation() (interface{}, error) {
 	if m.failAt > 0 && m.lo <= m.failAt-1 && m.failAt-1 < m.hi {
+		if m.failV {
+			return span{m.lo, m.hi}, procErr{m.failAt}
+		}
 		return nil, procErr{m.failAt}
 	}
 	if m.nilAt > 0 && m.lo <= m.nilAt-1 && m.nilAt-1 < m.hi {
@@ -418,7 +425,7 @@ func (m *recMapper) Operation() (interface{}, error) {
 }
 func (m *recMapper) Slice(i, j int) concurrent.Mapper {
 	*m.slices = append(*m.slices, span{m.lo + i, m.lo + j})
-	return &recMapper{lo: m.lo + i, hi: m.lo + j, slices: m.slices, failAt: m.failAt, nilAt: m.nilAt}
+	return &recMapper{lo: m.lo + i, hi: m.lo + j, slices: m.slices, failAt: m.failAt, nilAt: m.nilAt, failV: m.failV}
 }
 func (m *recMapper) Len() int { return m.hi - m.lo }
 
@@ -433,7 +440,7 @@ func runMap(t *testing.T, c *Case, o RunOpts) *Result {
 		var err error
 		returned := false
 		sim.Client("mapper", func() {
-			set := &recMapper{lo: 0, hi: pl.Len, slices: &slices, failAt: pl.FailAt, nilAt: pl.NilAt}
+			set := &recMapper{lo: 0, hi: pl.Len, slices: &slices, failAt: pl.FailAt, nilAt: pl.NilAt, failV: pl.FailWithValue}
 			if pl.ViaPromise {
 				r := <-concurrent.PromiseMap(set, pl.Threads, pl.MaxChunk).Wait()
 				results, _ = r.Value.([]interface{})
@@ -455,6 +462,15 @@ func runMap(t *testing.T, c *Case, o RunOpts) *Result {
 				sim.Probe("map_with_failing_chunk")
 				if pl.ViaPromise && err == nil {
 					sim.Fail("oracle", "promisemap-error", "a chunk failed, Map reports an error, and the promise made of it was settled without one")
+				}
+				if !pl.ViaPromise && err == nil {
+					// the chunk's operation returned an error: a Map that reports
+					// success has dropped it (one result per chunk "carrying that
+					// operation's value or error")
+					sim.Fail("oracle", "map-error-hidden", fmt.Sprintf("a chunk's operation failed and Map returned %d results and no error", len(results)))
+				}
+				if pl.FailWithValue {
+					sim.Probe("map_failing_chunk_with_value")
 				}
 				return // otherwise only: Map returned, nothing panicked, raced or deadlocked
 			}
@@ -525,6 +541,7 @@ func genMap(r *simrt.RNG) *Case {
 	}
 	if pl.Len > 0 && r.Intn(5) == 0 {
 		pl.FailAt = 1 + r.Intn(pl.Len)
+		pl.FailWithValue = r.Intn(3) == 0
 	} else if pl.Len > 0 && r.Intn(6) == 0 {
 		pl.NilAt = 1 + r.Intn(pl.Len)
 	}
@@ -556,6 +573,11 @@ func shrinkMap(c *Case) []*Case {
 	if pl.MaxChunk < pl.Len {
 		q := pl
 		q.MaxChunk++
+		add(q)
+	}
+	if pl.ViaPromise {
+		q := pl
+		q.ViaPromise = false
 		add(q)
 	}
 	return out
